@@ -53,6 +53,15 @@ class GDaemon:
         await self.s.wait('daemon:mempool_hashes')
         return [hexh(t.hash) for t in self.mempool]
 
+    async def get_block(self, hex_hash, filename):
+        '''Daemon.get_block: streams the block to the file, returns its size.'''
+        await self.s.wait(f'daemon:get_block({hex_hash[:8]})')
+        import electrumx.lib.util as util
+        b = self.by_hash[hex_hash]
+        with util.open_truncate(filename) as f:
+            f.write(b.raw)
+        return len(b.raw)
+
     async def getrawtransactions(self, hex_hashes, replace_errs=True):
         hex_hashes = list(hex_hashes)
         await self.s.wait(f'daemon:getrawtransactions({len(hex_hashes)})')
@@ -134,7 +143,7 @@ class Client:
 
 
 class FullSim:
-    def __init__(self, sim, deviations=0, with_sessions=True, max_steps=600, split_jobs=False):
+    def __init__(self, sim, deviations=0, with_sessions=True, max_steps=600, split_jobs=False, real_odb=False):
         self.sim = sim
         self.sched = gates.Scheduler(deviations, max_steps)
         self.daemon = GDaemon(self.sched)
@@ -144,6 +153,7 @@ class FullSim:
         self.errors = []
         self.prepared = {}         # placeholder raw -> RTx
         self.split_jobs = split_jobs
+        self.real_odb = real_odb      # keep the real OnDiskBlock (prefetcher, block files, parser)
         self.stopped = False
 
     # -- construction --------------------------------------------------------------------------
@@ -165,7 +175,15 @@ class FullSim:
         bpmod.sleep = sched.sleeper('bp.sleep')
         mpmod.sleep = sched.sleeper('mp.sleep')
         dbmod.sleep = sched.sleeper('db.sleep')
-        self.odb = bpmod.OnDiskBlock = make_gated_odb(self.daemon, sched)
+        if self.real_odb:
+            if not hasattr(bpmod, '_verif_real_odb'):
+                bpmod._verif_real_odb = bpmod.OnDiskBlock
+            odb = self.odb = bpmod.OnDiskBlock = bpmod._verif_real_odb
+            odb.blocks, odb.tasks, odb.log_block, odb.daemon, odb.state = {}, {}, False, None, None
+            import aiorpcx
+            bpmod.spawn = aiorpcx.spawn
+        else:
+            self.odb = bpmod.OnDiskBlock = make_gated_odb(self.daemon, sched)
         fs = self
 
         def read_tx(raw, cursor):
